@@ -26,7 +26,9 @@ for d in seeded/C*-m*; do
   n=$((n+1)); [ $((n % LANES)) -eq $LANE ] || continue
   if [ -n "$sel" ]; then ok=0; for s in $sel; do case $id in $s*) ok=1;; esac; done; [ $ok = 1 ] || continue; fi
   git -C $WT reset -q --hard HEAD; git -C $WT clean -fdq
-  if ! git -C $WT apply --3way $PWD/$d/patch.diff >/dev/null 2>&1 && ! git -C $WT apply $PWD/$d/patch.diff >/dev/null 2>&1; then
+  # patch_rebased.diff: the same change carried over by hand where a later fix: commit rewrote the lines it touches
+  pf=$PWD/$d/patch.diff; [ -f $PWD/$d/patch_rebased.diff ] && pf=$PWD/$d/patch_rebased.diff
+  if ! git -C $WT apply --3way $pf >/dev/null 2>&1 && ! git -C $WT apply $pf >/dev/null 2>&1; then
     git -C $WT reset -q --hard HEAD
     echo "$id|does not apply on the current tree (the code it changed was since repaired)|-" >> $out; continue
   fi
